@@ -37,7 +37,7 @@ def StopInv : Op → Bool → Prop
     (st.ph = .idle → AllIdle a ∧ AllIdle b) ∧
     (st.ph = .running →
       match k with
-      | .whenAll =>
+      | .whenAll | .whenAny =>
         (tok = true → st.src = true) ∧ (st.doe = true → st.src = true) ∧
         (st.ra.isSome = true → a.phase = .finished) ∧ (st.rb.isSome = true → b.phase = .finished) ∧
         StopInv a st.src ∧ StopInv b st.src
@@ -150,7 +150,7 @@ theorem unStep_stopInv (rec : Rec) (hrec : RecOk rec) (ev : Ev) (k : UnKind) (c 
 
 
 theorem stopInv_seq (k : BinKind) (a b : Op) (st : BinSt) (tok : Bool)
-    (h1 : k ≠ .whenAll) (h2 : k ≠ .stopWhen) :
+    (h1 : k ≠ .whenAll) (h2 : k ≠ .stopWhen) (h3 : k ≠ .whenAny) :
     StopInv (.bin k a b st) tok ↔
       ((st.ph = .idle → AllIdle a ∧ AllIdle b) ∧
        (st.ph = .running →
@@ -159,14 +159,14 @@ theorem stopInv_seq (k : BinKind) (a b : Op) (st : BinSt) (tok : Bool)
   cases k <;> simp_all [StopInv]
 
 theorem seqAfterFirst_stopInv (rec : Rec) (hrec : RecOk rec) (k : BinKind) (b : Op) (st : BinSt)
-    (env : Env) (ra : Res) (tok : Bool) (h1 : k ≠ .whenAll) (h2 : k ≠ .stopWhen)
+    (env : Env) (ra : Res) (tok : Bool) (h1 : k ≠ .whenAll) (h2 : k ≠ .stopWhen) (h3 : k ≠ .whenAny)
     (hra : StopInv ra.1 tok) (hb : AllIdle b) (henv : tok = true → env.stopped = true) :
     StopInv (seqAfterFirst rec k b st env ra).1 tok := by
   unfold seqAfterFirst
   cases hr : ra.2.2 with
   | none =>
     simp only []
-    rw [stopInv_seq _ _ _ _ _ h1 h2]
+    rw [stopInv_seq _ _ _ _ _ h1 h2 h3]
     simpa [hra, hb] using henv
   | some o =>
     simp only []
@@ -181,97 +181,111 @@ theorem seqAfterFirst_stopInv (rec : Rec) (hrec : RecOk rec) (k : BinKind) (b : 
       cases hr2 : (rec (Ev.start (k.succEnv env o)) b).2.2 with
       | none =>
         simp only []
-        rw [stopInv_seq _ _ _ _ _ h1 h2]
+        rw [stopInv_seq _ _ _ _ _ h1 h2 h3]
         simpa [hrb] using henv
       | some ob =>
         simp only []
-        rw [stopInv_seq _ _ _ _ _ h1 h2]
+        rw [stopInv_seq _ _ _ _ _ h1 h2 h3]
         simp
     · rw [if_neg ht]
-      rw [stopInv_seq _ _ _ _ _ h1 h2]
+      rw [stopInv_seq _ _ _ _ _ h1 h2 h3]
       simp
 
 theorem seqSecond_stopInv (k : BinKind) (a : Op) (st : BinSt) (env : Env) (rb : Res) (tok : Bool)
-    (h1 : k ≠ .whenAll) (h2 : k ≠ .stopWhen) (hph : st.ph = .running) (hsec : st.second = true)
+    (h1 : k ≠ .whenAll) (h2 : k ≠ .stopWhen) (h3 : k ≠ .whenAny) (hph : st.ph = .running) (hsec : st.second = true)
     (hrb : StopInv rb.1 tok) (henv : tok = true → env.stopped = true) :
     StopInv (seqSecond k a st env rb).1 tok := by
   unfold seqSecond
   cases hr : rb.2.2 with
   | none =>
     simp only []
-    rw [stopInv_seq _ _ _ _ _ h1 h2]
+    rw [stopInv_seq _ _ _ _ _ h1 h2 h3]
     simpa [hph, hsec, hrb] using henv
   | some ob =>
     simp only []
-    rw [stopInv_seq _ _ _ _ _ h1 h2]
+    rw [stopInv_seq _ _ _ _ _ h1 h2 h3]
     simp
 
 theorem seqStep_stopInv (rec : Rec) (hrec : RecOk rec) (ev : Ev) (k : BinKind) (a b : Op) (st : BinSt)
-    (tok : Bool) (h1 : k ≠ .whenAll) (h2 : k ≠ .stopWhen)
+    (tok : Bool) (h1 : k ≠ .whenAll) (h2 : k ≠ .stopWhen) (h3 : k ≠ .whenAny)
     (h : StopInv (.bin k a b st) tok) (hev : EvOk ev tok) :
     StopInv (seqStep rec ev k a b st).1 (tok || ev.isStop) := by
-  rw [stopInv_seq _ _ _ _ _ h1 h2] at h
+  rw [stopInv_seq _ _ _ _ _ h1 h2 h3] at h
   unfold seqStep
   cases hph : st.ph <;> cases hsec : st.second <;> cases ev <;>
     simp only [Ev.isStop, Bool.or_false, Bool.or_true]
   case idle.false.start env0 | idle.true.start env0 =>
     have hi := h.1 hph
-    apply seqAfterFirst_stopInv rec hrec k b st env0 _ tok h1 h2 _ hi.2 (hev env0 rfl)
+    apply seqAfterFirst_stopInv rec hrec k b st env0 _ tok h1 h2 h3 _ hi.2 (hev env0 rfl)
     have := hrec.inv (.start env0) a tok (allIdle_stopInv _ _ hi.1) hev
     simpa [Ev.isStop] using this
   case running.false.stop =>
     have hr := h.2 hph
-    apply seqAfterFirst_stopInv rec hrec k b st st.env.stop _ true h1 h2 _ (hr.2.1 hsec).2 (by simp [Env.stop])
+    apply seqAfterFirst_stopInv rec hrec k b st st.env.stop _ true h1 h2 h3 _ (hr.2.1 hsec).2 (by simp [Env.stop])
     have := hrec.inv .stop a tok (hr.2.1 hsec).1 (by intro e he; cases he)
     simpa [Ev.isStop] using this
   case running.false.complete i o =>
     have hr := h.2 hph
-    apply seqAfterFirst_stopInv rec hrec k b st st.env _ tok h1 h2 _ (hr.2.1 hsec).2 hr.1
+    apply seqAfterFirst_stopInv rec hrec k b st st.env _ tok h1 h2 h3 _ (hr.2.1 hsec).2 hr.1
     have := hrec.inv (.complete i o) a tok (hr.2.1 hsec).1 (by intro e he; cases he)
     simpa [Ev.isStop] using this
   case running.true.stop =>
     have hr := h.2 hph
-    apply seqSecond_stopInv k a st st.env.stop _ true h1 h2 hph hsec _ (by simp [Env.stop])
+    apply seqSecond_stopInv k a st st.env.stop _ true h1 h2 h3 hph hsec _ (by simp [Env.stop])
     have := hrec.inv .stop b tok (hr.2.2 hsec) (by intro e he; cases he)
     simpa [Ev.isStop] using this
   case running.true.complete i o =>
     have hr := h.2 hph
-    apply seqSecond_stopInv k a st st.env _ tok h1 h2 hph hsec _ hr.1
+    apply seqSecond_stopInv k a st st.env _ tok h1 h2 h3 hph hsec _ hr.1
     have := hrec.inv (.complete i o) b tok (hr.2.2 hsec) (by intro e he; cases he)
     simpa [Ev.isStop] using this
-  all_goals (rw [stopInv_seq _ _ _ _ _ h1 h2]; simp_all)
+  all_goals (rw [stopInv_seq _ _ _ _ _ h1 h2 h3]; simp_all)
 
 
 /-! ### when_all -/
 
-theorem stopInv_wa (a b : Op) (st : BinSt) (tok : Bool) :
-    StopInv (.bin .whenAll a b st) tok ↔
+theorem stopInv_wa (k : BinKind) (hk : k = .whenAll ∨ k = .whenAny) (a b : Op) (st : BinSt) (tok : Bool) :
+    StopInv (.bin k a b st) tok ↔
       ((st.ph = .idle → AllIdle a ∧ AllIdle b) ∧
        (st.ph = .running →
         (tok = true → st.src = true) ∧ (st.doe = true → st.src = true) ∧
         (st.ra.isSome = true → a.phase = .finished) ∧ (st.rb.isSome = true → b.phase = .finished) ∧
         StopInv a st.src ∧ StopInv b st.src)) := by
-  simp [StopInv]
+  rcases hk with hk | hk <;> subst hk <;> simp [StopInv]
 
-@[simp] theorem waRecord_ph (st : BinSt) (isA : Bool) (o : Outcome) : (waRecord st isA o).1.ph = st.ph := by
-  cases o <;> cases isA <;> simp [waRecord] <;> split <;> simp
-@[simp] theorem waRecord_src (st : BinSt) (isA : Bool) (o : Outcome) : (waRecord st isA o).1.src = st.src := by
-  cases o <;> cases isA <;> simp [waRecord] <;> split <;> simp
-@[simp] theorem waRecord_env (st : BinSt) (isA : Bool) (o : Outcome) : (waRecord st isA o).1.env = st.env := by
-  cases o <;> cases isA <;> simp [waRecord] <;> split <;> simp
-@[simp] theorem waRecord_ra_true (st : BinSt) (o : Outcome) : (waRecord st true o).1.ra = some o := by
-  cases o <;> simp [waRecord] <;> split <;> simp
-@[simp] theorem waRecord_rb_true (st : BinSt) (o : Outcome) : (waRecord st true o).1.rb = st.rb := by
-  cases o <;> simp [waRecord] <;> split <;> simp
-@[simp] theorem waRecord_rb_false (st : BinSt) (o : Outcome) : (waRecord st false o).1.rb = some o := by
-  cases o <;> simp [waRecord] <;> split <;> simp
-@[simp] theorem waRecord_ra_false (st : BinSt) (o : Outcome) : (waRecord st false o).1.ra = st.ra := by
-  cases o <;> simp [waRecord] <;> split <;> simp
+@[simp] theorem waRecord_ph (any : Bool) (st : BinSt) (isA : Bool) (o : Outcome) : (waRecord any st isA o).1.ph = st.ph := by
+  cases any <;> cases o <;> cases isA <;> simp [waRecord] <;> (repeat' split) <;> simp
+@[simp] theorem waRecord_src (any : Bool) (st : BinSt) (isA : Bool) (o : Outcome) : (waRecord any st isA o).1.src = st.src := by
+  cases any <;> cases o <;> cases isA <;> simp [waRecord] <;> (repeat' split) <;> simp
+@[simp] theorem waRecord_env (any : Bool) (st : BinSt) (isA : Bool) (o : Outcome) : (waRecord any st isA o).1.env = st.env := by
+  cases any <;> cases o <;> cases isA <;> simp [waRecord] <;> (repeat' split) <;> simp
+@[simp] theorem waRecord_ra_true (any : Bool) (st : BinSt) (o : Outcome) : ((waRecord any st true o).1.ra).isSome = true := by
+  cases any <;> cases o <;> simp [waRecord] <;> (repeat' split) <;> simp
+@[simp] theorem waRecord_rb_true (any : Bool) (st : BinSt) (o : Outcome) : (waRecord any st true o).1.rb = st.rb := by
+  cases any <;> cases o <;> simp [waRecord] <;> (repeat' split) <;> simp
+@[simp] theorem waRecord_rb_false (any : Bool) (st : BinSt) (o : Outcome) : ((waRecord any st false o).1.rb).isSome = true := by
+  cases any <;> cases o <;> simp [waRecord] <;> (repeat' split) <;> simp
+@[simp] theorem waRecord_ra_false (any : Bool) (st : BinSt) (o : Outcome) : (waRecord any st false o).1.ra = st.ra := by
+  cases any <;> cases o <;> simp [waRecord] <;> (repeat' split) <;> simp
 /-- after recording, `doe` implies: it was set before, or this record requested the stop, or the
     source was already stopped -/
-theorem waRecord_doe (st : BinSt) (isA : Bool) (o : Outcome) :
-    (waRecord st isA o).1.doe = true → st.doe = true ∨ (waRecord st isA o).2 = true ∨ st.src = true := by
-  cases hsrc : st.src <;> cases hdoe : st.doe <;> cases o <;> cases isA <;> simp [waRecord, hsrc, hdoe]
+theorem waRecord_doe (any : Bool) (st : BinSt) (isA : Bool) (o : Outcome) :
+    (waRecord any st isA o).1.doe = true → st.doe = true ∨ (waRecord any st isA o).2 = true ∨ st.src = true := by
+  cases any <;> cases hsrc : st.src <;> cases hdoe : st.doe <;> cases o <;> cases isA <;>
+    simp [waRecord, hsrc, hdoe] <;> (repeat' split) <;> simp_all
+
+theorem waRec_ra_isSome_true (any : Bool) (st : BinSt) (r : Option Outcome) :
+    ((waRec any st true r).1.ra).isSome = (r.isSome || st.ra.isSome) := by
+  cases r <;> simp [waRec]
+theorem waRec_rb_of_true (any : Bool) (st : BinSt) (r : Option Outcome) : (waRec any st true r).1.rb = st.rb := by
+  cases r <;> simp [waRec]
+theorem waRec_rb_isSome_false (any : Bool) (st : BinSt) (r : Option Outcome) :
+    ((waRec any st false r).1.rb).isSome = (r.isSome || st.rb.isSome) := by
+  cases r <;> simp [waRec]
+theorem waRec_ra_of_false (any : Bool) (st : BinSt) (r : Option Outcome) : (waRec any st false r).1.ra = st.ra := by
+  cases r <;> simp [waRec]
+@[simp] theorem waRec_src (any : Bool) (st : BinSt) (isA : Bool) (r : Option Outcome) : (waRec any st isA r).1.src = st.src := by
+  cases r <;> simp [waRec]
 
 /-- the running part of when_all's invariant, on the components -/
 def WAg (a b : Op) (st : BinSt) (tok : Bool) : Prop :=
@@ -293,15 +307,15 @@ theorem recIf_stop (rec : Rec) (hrec : RecOk rec) (cond : Bool) (x : Op) (src : 
     simpa [Ev.isStop] using this
 
 /-- recording a sibling's completion that came out of the stop fan-out (source already stopped) -/
-theorem waRec_after (st : BinSt) (isA : Bool) (r : Option Outcome) (hsrc : st.src = true) :
-    (waRec st isA r).1.src = true ∧ (waRec st isA r).1.ph = st.ph := by
+theorem waRec_after (any : Bool) (st : BinSt) (isA : Bool) (r : Option Outcome) (hsrc : st.src = true) :
+    (waRec any st isA r).1.src = true ∧ (waRec any st isA r).1.ph = st.ph := by
   cases r <;> simp [waRec, hsrc]
 
-theorem waAfterChild_inv (rec : Rec) (hrec : RecOk rec) (isA : Bool) (a b : Op) (st : BinSt)
+theorem waAfterChild_inv (rec : Rec) (hrec : RecOk rec) (any : Bool) (isA : Bool) (a b : Op) (st : BinSt)
     (r : Option Outcome) (tok : Bool) (h : WAg a b st tok)
     (hr : ∀ o, r = some o → (if isA then a else b).phase = .finished) :
-    WAg (waAfterChild rec isA a b st r).1 (waAfterChild rec isA a b st r).2.1
-        (waAfterChild rec isA a b st r).2.2.1 tok := by
+    WAg (waAfterChild rec any isA a b st r).1 (waAfterChild rec any isA a b st r).2.1
+        (waAfterChild rec any isA a b st r).2.2.1 tok := by
   obtain ⟨h1, h2, h3, h4, h5, h6⟩ := h
   cases r with
   | none => exact ⟨h1, h2, h3, h4, h5, h6⟩
@@ -312,78 +326,106 @@ theorem waAfterChild_inv (rec : Rec) (hrec : RecOk rec) (isA : Bool) (a b : Op) 
       simp only [if_true] at hfin
       simp only [waAfterChild, if_true]
       -- the sibling stop
-      have hsib := recIf_stop rec hrec ((waRecord st true o).2 && (markSrc (waRecord st true o).1 (waRecord st true o).2).rb.isNone) b st.src h6
-      generalize hc : ((waRecord st true o).2 && (markSrc (waRecord st true o).1 (waRecord st true o).2).rb.isNone) = cond at hsib
+      have hsib := recIf_stop rec hrec ((waRecord any st true o).2 && (markSrc (waRecord any st true o).1 (waRecord any st true o).2).rb.isNone) b st.src h6
+      generalize hc : ((waRecord any st true o).2 && (markSrc (waRecord any st true o).1 (waRecord any st true o).2).rb.isNone) = cond at hsib
       generalize hrb : recIf rec cond Ev.stop b = rb at hsib
       obtain ⟨hs1, hs2, hs3⟩ := hsib
-      have hdoe := waRecord_doe st true o
-      cases hsrc : st.src <;> cases hn : (waRecord st true o).2 <;> cases hrbs : st.rb <;>
+      have hdoe := waRecord_doe any st true o
+      cases hsrc : st.src <;> cases hn : (waRecord any st true o).2 <;> cases hrbs : st.rb <;>
         cases hq : rb.2.2 <;>
         simp_all [WAg, markSrc, waRec, stopInv_finished] <;>
         (try (constructor <;> intros <;> simp_all [stopInv_finished]))
     | false =>
       simp only [Bool.false_eq_true, if_false] at hfin
       simp only [waAfterChild, Bool.false_eq_true, if_false]
-      have hsib := recIf_stop rec hrec ((waRecord st false o).2 && (markSrc (waRecord st false o).1 (waRecord st false o).2).ra.isNone) a st.src h5
-      generalize hc : ((waRecord st false o).2 && (markSrc (waRecord st false o).1 (waRecord st false o).2).ra.isNone) = cond at hsib
+      have hsib := recIf_stop rec hrec ((waRecord any st false o).2 && (markSrc (waRecord any st false o).1 (waRecord any st false o).2).ra.isNone) a st.src h5
+      generalize hc : ((waRecord any st false o).2 && (markSrc (waRecord any st false o).1 (waRecord any st false o).2).ra.isNone) = cond at hsib
       generalize hra : recIf rec cond Ev.stop a = ra at hsib
       obtain ⟨hs1, hs2, hs3⟩ := hsib
-      have hdoe := waRecord_doe st false o
-      cases hsrc : st.src <;> cases hn : (waRecord st false o).2 <;> cases hras : st.ra <;>
+      have hdoe := waRecord_doe any st false o
+      cases hsrc : st.src <;> cases hn : (waRecord any st false o).2 <;> cases hras : st.ra <;>
         cases hq : ra.2.2 <;>
         simp_all [WAg, markSrc, waRec, stopInv_finished] <;>
         (try (constructor <;> intros <;> simp_all [stopInv_finished]))
 
-theorem waStop_stopInv (rec : Rec) (hrec : RecOk rec) (a b : Op) (st : BinSt) (tok : Bool)
-    (h : StopInv (.bin .whenAll a b st) tok) (hph : st.ph = .running) :
-    StopInv (waStop rec a b st).1 true := by
-  rw [stopInv_wa] at h
-  obtain ⟨h1, h2, h3, h4, h5, h6⟩ := h.2 hph
-  unfold waStop
-  by_cases hs : st.src = true
-  · simp only [hs, if_true]
-    rw [stopInv_wa]
-    simp_all
-  · simp only [hs]
-    have ha := hrec.inv .stop a st.src h5 (by intro e he; cases he)
-    have hb := hrec.inv .stop b st.src h6 (by intro e he; cases he)
-    have fa := hrec.fin .stop a
-    have fb := hrec.fin .stop b
-    simp only [Ev.isStop, Bool.or_true] at ha hb
-    have hfa : ∀ t, st.ra.isSome = true → StopInv a t := fun t hh => stopInv_finished _ _ (h3 hh)
-    have hfb : ∀ t, st.rb.isSome = true → StopInv b t := fun t hh => stopInv_finished _ _ (h4 hh)
-    cases hra : st.ra <;> cases hrb : st.rb <;>
-      cases ea : (rec Ev.stop a).2.2 <;> cases eb : (rec Ev.stop b).2.2 <;>
-      simp_all [recIf, waRec, waFinish, stopInv_wa, Op.phase] <;>
-      (try (split <;> simp_all [stopInv_wa, Op.phase]))
-
-
-
 theorem markSrc_ph (st : BinSt) (c : Bool) : (markSrc st c).ph = st.ph := by
   cases c <;> simp [markSrc]
 
-theorem waRec_ph (st : BinSt) (isA : Bool) (r : Option Outcome) : (waRec st isA r).1.ph = st.ph := by
+theorem waRec_ph (any : Bool) (st : BinSt) (isA : Bool) (r : Option Outcome) : (waRec any st isA r).1.ph = st.ph := by
   cases r <;> simp [waRec]
 
-theorem waAfterChild_ph (rec : Rec) (isA : Bool) (a b : Op) (st : BinSt) (r : Option Outcome) :
-    (waAfterChild rec isA a b st r).2.2.1.ph = st.ph := by
+theorem waAfterChild_ph (rec : Rec) (any : Bool) (isA : Bool) (a b : Op) (st : BinSt) (r : Option Outcome) :
+    (waAfterChild rec any isA a b st r).2.2.1.ph = st.ph := by
   cases r with
   | none => rfl
   | some o => cases isA <;> simp [waAfterChild, waRec_ph, markSrc_ph]
 
-theorem waFinish_stopInv (a b : Op) (st : BinSt) (outs : List Out) (tok : Bool)
-    (hph : st.ph = .running) (h : WAg a b st tok) : StopInv (waFinish a b st outs).1 tok := by
+theorem waFinish_stopInv (k : BinKind) (hk : k = .whenAll ∨ k = .whenAny) (a b : Op) (st : BinSt) (outs : List Out) (tok : Bool)
+    (hph : st.ph = .running) (h : WAg a b st tok) : StopInv (waFinish k a b st outs).1 tok := by
   unfold waFinish
   split
   · exact stopInv_finished _ _ (by simp [Op.phase])
-  · rw [stopInv_wa]
+  · rw [stopInv_wa k hk]
     exact ⟨by simp [hph], fun _ => h⟩
 
-theorem waStart_stopInv (rec : Rec) (hrec : RecOk rec) (a b : Op) (st : BinSt) (env0 : Env) (tok : Bool)
+/-- deliver `.stop` to a child of a when_all whose own source is being stopped: afterwards the child
+    satisfies the invariant for a stopped token, whether or not the event was forwarded (it is not
+    forwarded exactly when the child's result is already recorded, i.e. the child is finished) -/
+theorem stopChild (rec : Rec) (hrec : RecOk rec) (x : Op) (rx : Option Outcome) (src : Bool)
+    (hx : StopInv x src) (hfin : rx.isSome = true → x.phase = .finished) :
+    StopInv (recIf rec rx.isNone .stop x).1 true ∧
+    (∀ o, (recIf rec rx.isNone .stop x).2.2 = some o → (recIf rec rx.isNone .stop x).1.phase = .finished) ∧
+    (rx.isSome = true → (recIf rec rx.isNone .stop x).1 = x ∧ (recIf rec rx.isNone .stop x).2.2 = none) := by
+  cases hr : rx with
+  | none =>
+    simp only [Option.isNone_none, recIf, if_true]
+    refine ⟨?_, hrec.fin _ _, by simp⟩
+    have := hrec.inv .stop x src hx (by intro e he; cases he)
+    simpa [Ev.isStop] using this
+  | some v =>
+    simp only [Option.isNone_some, recIf, Bool.false_eq_true, if_false]
+    exact ⟨stopInv_finished _ _ (hfin (by simp [hr])), by simp, by simp⟩
+
+theorem waStop_stopInv (rec : Rec) (hrec : RecOk rec) (k : BinKind) (hk : k = .whenAll ∨ k = .whenAny)
+    (a b : Op) (st : BinSt) (tok : Bool)
+    (h : StopInv (.bin k a b st) tok) (hph : st.ph = .running) :
+    StopInv (waStop rec k a b st).1 true := by
+  rw [stopInv_wa k hk] at h
+  obtain ⟨h1, h2, h3, h4, h5, h6⟩ := h.2 hph
+  unfold waStop
+  simp only []
+  split
+  · rename_i hs
+    rw [stopInv_wa k hk]
+    exact ⟨by simp [hph], fun _ => ⟨fun _ => hs, h2, h3, h4, h5, h6⟩⟩
+  · have sa := stopChild rec hrec a st.ra st.src h5 h3
+    generalize recIf rec st.ra.isNone Ev.stop a = ra at sa ⊢
+    have sb := stopChild rec hrec b st.rb st.src h6 h4
+    have hrb2 : (waRec k.isAny { st with env := st.env.stop, src := true } true ra.2.2).1.rb = st.rb := by
+      rw [waRec_rb_of_true]
+    rw [hrb2]
+    generalize recIf rec st.rb.isNone Ev.stop b = rb at sb ⊢
+    apply waFinish_stopInv k hk _ _ _ _ _ (by simp [waRec_ph, hph])
+    refine ⟨by simp, by simp, ?_, ?_, by simpa using sa.1, by simpa using sb.1⟩
+    · rw [waRec_ra_of_false, waRec_ra_isSome_true]
+      intro hh
+      simp only [Bool.or_eq_true] at hh
+      rcases hh with hh | hh
+      · obtain ⟨o, ho⟩ := Option.isSome_iff_exists.mp hh; exact sa.2.1 o ho
+      · rw [(sa.2.2 hh).1]; exact h3 hh
+    · rw [waRec_rb_isSome_false, waRec_rb_of_true]
+      intro hh
+      simp only [Bool.or_eq_true] at hh
+      rcases hh with hh | hh
+      · obtain ⟨o, ho⟩ := Option.isSome_iff_exists.mp hh; exact sb.2.1 o ho
+      · rw [(sb.2.2 hh).1]; exact h4 hh
+
+theorem waStart_stopInv (rec : Rec) (hrec : RecOk rec) (k : BinKind) (hk : k = .whenAll ∨ k = .whenAny)
+    (a b : Op) (st : BinSt) (env0 : Env) (tok : Bool)
     (ha : AllIdle a) (hb : AllIdle b) (hev : tok = true → env0.stopped = true) :
-    StopInv (waStart rec a b st env0).1 tok := by
+    StopInv (waStart rec k a b st env0).1 tok := by
   unfold waStart
-  apply waFinish_stopInv
+  apply waFinish_stopInv k hk
   · rw [waAfterChild_ph, markSrc_ph, waRec_ph]
   · apply waAfterChild_inv rec hrec
     · -- the state after a has been started and b has been started
@@ -398,7 +440,7 @@ theorem waStart_stopInv (rec : Rec) (hrec : RecOk rec) (a b : Op) (st : BinSt) (
       generalize hra : rec (.start { env0 with stopped := env0.stopped, stoppable := true }) a = ra at hA fA
       obtain ⟨a', outsA, rA⟩ := ra
       simp only at hA fA
-      cases hs : env0.stopped <;> cases rA with
+      cases hany : k.isAny <;> cases hs : env0.stopped <;> cases rA with
       | none => simp_all [WAg, waRec, markSrc, BinSt.init]
       | some o =>
         have := fA o rfl
@@ -427,13 +469,14 @@ theorem WAg_completeB (rec : Rec) (hrec : RecOk rec) (a b : Op) (st : BinSt) (to
     · have := hrec.inv (.complete i o) b st.src h6 (by intro e he; cases he)
       simpa [Ev.isStop] using this
 
-theorem waComplete_stopInv (rec : Rec) (hrec : RecOk rec) (a b : Op) (st : BinSt) (tok : Bool) (i : Nat) (o : Outcome)
-    (h : StopInv (.bin .whenAll a b st) tok) (hph : st.ph = .running) :
-    StopInv (waComplete rec a b st i o).1 tok := by
-  rw [stopInv_wa] at h
+theorem waComplete_stopInv (rec : Rec) (hrec : RecOk rec) (k : BinKind) (hk : k = .whenAll ∨ k = .whenAny)
+    (a b : Op) (st : BinSt) (tok : Bool) (i : Nat) (o : Outcome)
+    (h : StopInv (.bin k a b st) tok) (hph : st.ph = .running) :
+    StopInv (waComplete rec k a b st i o).1 tok := by
+  rw [stopInv_wa k hk] at h
   have hg : WAg a b st tok := h.2 hph
   unfold waComplete
-  apply waFinish_stopInv
+  apply waFinish_stopInv k hk
   · rw [waAfterChild_ph, waAfterChild_ph]; exact hph
   · apply waAfterChild_inv rec hrec
     · apply WAg_completeB rec hrec
@@ -448,17 +491,18 @@ theorem waComplete_stopInv (rec : Rec) (hrec : RecOk rec) (a b : Op) (st : BinSt
         simp only [recIf, hc, if_true] at ho' ⊢
         exact hrec.fin _ _ _ ho'
 
-theorem waStep_stopInv (rec : Rec) (hrec : RecOk rec) (ev : Ev) (a b : Op) (st : BinSt) (tok : Bool)
-    (h : StopInv (.bin .whenAll a b st) tok) (hev : EvOk ev tok) :
-    StopInv (waStep rec ev a b st).1 (tok || ev.isStop) := by
+theorem waStep_stopInv (rec : Rec) (hrec : RecOk rec) (ev : Ev) (k : BinKind) (hk : k = .whenAll ∨ k = .whenAny)
+    (a b : Op) (st : BinSt) (tok : Bool)
+    (h : StopInv (.bin k a b st) tok) (hev : EvOk ev tok) :
+    StopInv (waStep rec ev k a b st).1 (tok || ev.isStop) := by
   unfold waStep
   cases hph : st.ph <;> cases ev <;> simp only [Ev.isStop, Bool.or_false, Bool.or_true]
   case idle.start env0 =>
-    rw [stopInv_wa] at h
-    exact waStart_stopInv rec hrec a b st env0 tok (h.1 hph).1 (h.1 hph).2 (hev env0 rfl)
-  case running.stop => exact waStop_stopInv rec hrec a b st tok h hph
-  case running.complete i o => exact waComplete_stopInv rec hrec a b st tok i o h hph
-  all_goals (rw [stopInv_wa] at h ⊢; simp_all)
+    rw [stopInv_wa k hk] at h
+    exact waStart_stopInv rec hrec k hk a b st env0 tok (h.1 hph).1 (h.1 hph).2 (hev env0 rfl)
+  case running.stop => exact waStop_stopInv rec hrec k hk a b st tok h hph
+  case running.complete i o => exact waComplete_stopInv rec hrec k hk a b st tok i o h hph
+  all_goals (rw [stopInv_wa k hk] at h ⊢; simp_all)
 
 /-! ### stop_when -/
 
@@ -634,11 +678,13 @@ theorem binStep_stopInv (rec : Rec) (hrec : RecOk rec) (ev : Ev) (k : BinKind) (
     (h : StopInv (.bin k a b st) tok) (hev : EvOk ev tok) :
     StopInv (binStep rec ev k a b st).1 (tok || ev.isStop) := by
   by_cases h1 : k = .whenAll
-  · subst h1; exact waStep_stopInv rec hrec ev a b st tok h hev
-  · by_cases h2 : k = .stopWhen
-    · subst h2; exact swStep_stopInv rec hrec ev a b st tok h hev
-    · have : binStep rec ev k a b st = seqStep rec ev k a b st := by cases k <;> simp_all [binStep]
-      rw [this]; exact seqStep_stopInv rec hrec ev k a b st tok h1 h2 h hev
+  · subst h1; exact waStep_stopInv rec hrec ev _ (Or.inl rfl) a b st tok h hev
+  · by_cases h3 : k = .whenAny
+    · subst h3; exact waStep_stopInv rec hrec ev _ (Or.inr rfl) a b st tok h hev
+    · by_cases h2 : k = .stopWhen
+      · subst h2; exact swStep_stopInv rec hrec ev a b st tok h hev
+      · have : binStep rec ev k a b st = seqStep rec ev k a b st := by cases k <;> simp_all [binStep]
+        rw [this]; exact seqStep_stopInv rec hrec ev k a b st tok h1 h2 h3 h hev
 
 theorem recOk_deliver : ∀ fuel : Nat, RecOk (deliver specs fuel)
   | 0 => by
